@@ -227,6 +227,8 @@ BODY_A = {
     "a13": ['zero if flagF else "Hp"', ("diagonal", '"B" if flagT else "Hp"')],
     "a14": ['g("Hp", "B")', ("offdiagonal", '-"Hp @ A"')],
     "a15": ['"Hp" / 2', ("lower", '"Hp" + "B"'), '"B"'],
+    "a16": [("diagonal", '"Hp" - ("B" + "B".adj) / 2'), ("diagonal", 'zero if flags[index[0]] else "Hp @ A" + "Hp @ A".adj'),
+            ("offdiagonal", '-f("Hp")')],
 }
 BODY_B = {
     "b1": ['"Hp"'],
@@ -241,6 +243,7 @@ BODY_B = {
     "b10": ['"Hp @ A @ Hp @ A" + "Hp"'],
     "b11": [("lower", '-"A".adj'), '"Hp"'],
     "b12": ['"Hp"', ("diagonal", '"A"'), ("lower", '-"A".adj'), '"Hp @ A"'],
+    "b13": ['-(-"Hp" - "Hp @ A") / -2', ("offdiagonal", '"Hp" if flags[index[1]] else zero')],
 }
 K3_BODY = {"k3a": [("diagonal", 'f("Hp")')], "k3b": [("diagonal", '"Hp" + f("B")'), ("offdiagonal", '"Hp"')]}
 STARTS_A = [0, 1, "H_0", None]
@@ -344,7 +347,7 @@ def run_grammar(case):
             return b_ if b_ is zero else 1.5 * b_
         return a_ if b_ is zero else a_ + 1.5 * b_
 
-    scope = {"f": f, "g": g, "flagT": True, "flagF": False}
+    scope = {"f": f, "g": g, "flagT": True, "flagF": False, "flags": [True, False, True, False]}
     bound = (2,) if k == 1 else (1, 1)
     ref = Interp(src, {"H": Hv}, scope, nb, k, zero, one, Dagger)
     names = ref.names()
@@ -461,7 +464,7 @@ def run_bfs_program(case):
             return b_ if b_ is zero else 1.5 * b_
         return a_ if b_ is zero else a_ + 1.5 * b_
 
-    scope = {"f": f, "g": g, "flagT": True, "flagF": False}
+    scope = {"f": f, "g": g, "flagT": True, "flagF": False, "flags": [True, False, True, False]}
     ref = Interp(src, {"H": Hv}, scope, nb, k, zero, one, Dagger)
     names = ref.names()
     letters = [(name, (i, j, n)) for name in names for i in range(nb) for j in range(nb) for n in range(2)]
